@@ -364,7 +364,11 @@ def r01_5(run, model, only_files=None):
                         and not any(S.span_contains(l2["sp"], c["sp"]) for l2 in inner)
                         and any(a["k"] == "If" and a.get("else") is None for a in par.ancestors(c))]
                 if cond and f.file in KEEP_FILES:
-                    if f.file in FILTER_FREE_FILES and (only_files is None or f.file in only_files):
+                    # the collection walked is a field of the IR node the enclosing arm matched
+                    fpar = S.Parents(f.body)
+                    child = any(a["k"] == "Arm" and re.search(r"\bE[A-Z]\w*\s*\{", S.norm_ws(run.facts.text(f.file, a["pat"]["sp"])))
+                                and S.idents(loop["iter"]) & set(S.pat_bindings(a["pat"])) for a in fpar.ancestors(loop))
+                    if f.file in FILTER_FREE_FILES and child and (only_files is None or f.file in only_files):
                         it = S.norm_ws(run.facts.text(f.file, loop["iter"]["sp"]))
                         run.ob("R01.5", f"{f.name}|loop over {it[:40]} keeps only the elements that pass a test", False, site(f.file, loop["sp"]),
                                "every push of this loop sits under an `if` without an else: the elements failing the test leave no trace in the result",
